@@ -97,6 +97,7 @@ func genPoolSrc(repo string) (string, error) {
 	if err != nil {
 		return "", err
 	}
+	httpCloseFirst := false
 	checkFirst := false
 	if fd := FindFunc(f, "connPool", "NewStream"); fd == nil {
 		bad("http connPool.NewStream not found")
@@ -143,11 +144,26 @@ func genPoolSrc(repo string) (string, error) {
 	if fd := FindFunc(f, "activeClient", "OnDestroyStream"); fd == nil {
 		bad("http activeClient.OnDestroyStream not found")
 	} else {
-		// expected: if !ac.closed && ac.closeConn { ac.client.Close() } ; ac.pool.onStreamDestroy(ac)
+		// expected: if !ac.closed && ac.closeConn { ac.client.Close() } ; ac.pool.onStreamDestroy(ac)   (close first)
+		// also recognised (Model/PoolDestroy.v): the two statements in the other order (append first)
 		shape := len(fd.Body.List) == 2
 		if shape {
-			is, isIf := fd.Body.List[0].(*ast.IfStmt)
-			shape = isIf && exprStr(fset, is.Cond) == "!ac.closed&&ac.closeConn" && containsCall(is.Body, "Close") && containsCall(fd.Body.List[1], "onStreamDestroy")
+			isClose := func(st ast.Stmt) bool {
+				is, isIf := st.(*ast.IfStmt)
+				return isIf && exprStr(fset, is.Cond) == "!ac.closed&&ac.closeConn" && containsCall(is.Body, "Close") && is.Else == nil
+			}
+			isPut := func(st ast.Stmt) bool {
+				_, isExpr := st.(*ast.ExprStmt)
+				return isExpr && containsCall(st, "onStreamDestroy")
+			}
+			switch {
+			case isClose(fd.Body.List[0]) && isPut(fd.Body.List[1]):
+				httpCloseFirst = true
+			case isPut(fd.Body.List[0]) && isClose(fd.Body.List[1]):
+				httpCloseFirst = false
+			default:
+				shape = false
+			}
 		}
 		if !shape {
 			bad("http OnDestroyStream: unrecognised shape")
@@ -343,6 +359,7 @@ func genPoolSrc(repo string) (string, error) {
 	fmt.Fprintf(&b, "Definition pool_src_switches : switches := mkSw %v %v %v %v.\n", checkFirst, httpResetAny, ppClose, ppResetAny)
 	fmt.Fprintf(&b, "Definition poolmx_src_switches : mx_switches := mkMxSw %v %v.\n", mxFlag, mxOwn)
 	fmt.Fprintf(&b, "Definition poolinit_src_mx_dial_locked : bool := %v.\n", mxDialLocked)
+	fmt.Fprintf(&b, "Definition pooldestroy_src_http_close_first : bool := %v.\n", httpCloseFirst)
 	fmt.Fprintf(&b, "Definition PoolSrc_translator_ok := %v.\n", ok)
 	return b.String(), nil
 }
